@@ -16,7 +16,7 @@
                                                              row_get_parameter       (repaired: no squeeze, D25)
                                                              hmc_get_parameter_shape_pinned (the squeeze)
    hmc/__init__.py:377  array(self.probs[burn::thin])        get_probabilities
-   hmc/__init__.py:394  array(self.theta[burn::thin])        row_get_sample          (repaired: always (n, n_parameters), D26)
+   hmc/__init__.py:394  array(self.theta[burn::thin])        row_get_sample          (repaired: always (n, n_parameters), D28)
                                                              hmc_get_sample_shape_pinned  ((0,) when nothing is left)
    ensemble.py:318 self.sample[burn::thin, index]            row_get_parameter
    ensemble.py:336 self.sample_probs[burn::thin]             get_probabilities
